@@ -11,7 +11,7 @@
     [save] returns a flag: [false] when a look inside a writer raised (BSP.save raises, no file is written). *)
 From Coq Require Import List Arith.
 From Coq Require Import NArith.
-From SV Require Import SM.LazyLumps SM.LazyLumpsProofs SM.LazyLumpsAppend SM.LazyLumpsCond SM.LazyLumpsSide Fmt.BspContainer Fmt.BspContainerProofs.
+From SV Require Import SM.LazyLumps SM.LazyLumpsProofs SM.LazyLumpsAppend SM.LazyLumpsCond SM.LazyLumpsSide SM.LazyLumpsMut Fmt.BspContainer Fmt.BspContainerProofs.
 From SV Require Bin.FindInsert.
 Import ListNotations.
 
@@ -293,6 +293,92 @@ Theorem c10_store_outside_view_hypotheses_satisfiable :
   side_ok (list nat) (list nat) sx_rd (sx_asread (100 :: nil)) g_side s0 /\
   raw (snd r) 5 = 100 :: nil /\ raw (snd r) 2 = 7 :: 8 :: nil.
 Proof. exact side_store_hyps_satisfiable. Qed.
+
+(** ---------------------------------------------------------------------------------------------------------
+    Readers that change, in place, objects of a view they look at (SM/LazyLumpsMut.v): _lmp_read_bmodels takes the
+    "model" key out of the brush entities of the cached ents view, _lmp_write_bmodels puts it back before it
+    serialises.  [getf_m] / [save_m]: the reader of [v] applies [mut v d] to the cached value of every [d] in [mdeps v]
+    once its own parse has succeeded ([early = false]; [early = true]: before it can still raise), the writer of [v]
+    applies [unmut v d] after it looked at its dependencies.  [R None s' s]: same lumps, same cached views, and the
+    cached value of [x] in [s'] is that of [s] changed by the cached view that mutates [x], if any. *)
+Section C10Mut.
+  Variables D P : Type.
+  Variable empty : D.
+  Variable rd : nat -> list D -> option P.
+  Variable wr : nat -> P -> list D.
+  Variable g : graph.
+  Variable sh : shape.
+  Variable mdeps : nat -> list nat.
+  Variable mut unmut : nat -> nat -> P -> P.
+  Variable early : bool.
+
+  (** If the change is made only after the reader's parse succeeded, every mutated view is looked at by the reader and
+      by the writer of the mutating view, no two views change the same view and the writer's undo restores the values
+      parsed from this file, then saving completes exactly when it does without the changes and leaves the same lumps
+      and the same cache, for all access sequences (looks that raise included). *)
+  Theorem c10_hidden_mutation_undone_is_invisible : order_consistent g = true -> shape_ok sh = true -> early = false ->
+    (forall v d, In d (mdeps v) -> In d (v_rdeps (decl g v)) /\ In d (v_wdeps (decl g v))) ->
+    (forall v w x, In x (mdeps v) -> In x (mdeps w) -> v = w) ->
+    forall s0 : state D P,
+    (forall v d p, In d (mdeps v) -> d < nviews g -> rd d (own_data D P g s0 d) = Some p -> unmut v d (mut v d p) = p) ->
+    wr_len_ok D P rd wr g s0 -> fresh D P s0 -> forall accs,
+    fst (save_m D P empty rd wr g sh mdeps mut unmut early (run_m D P empty rd g sh mdeps mut early accs s0))
+    = fst (save D P empty rd wr g sh (run D P empty rd g sh accs s0)) /\
+    (fst (save D P empty rd wr g sh (run D P empty rd g sh accs s0)) = true ->
+     R D P mdeps mut None (snd (save_m D P empty rd wr g sh mdeps mut unmut early (run_m D P empty rd g sh mdeps mut early accs s0)))
+       (snd (save D P empty rd wr g sh (run D P empty rd g sh accs s0)))).
+  Proof. exact (mut_save_equiv D P empty rd wr g sh mdeps mut unmut early). Qed.
+
+  (** ... and therefore lossless under the hypotheses of the main theorem. *)
+  Theorem c10_hidden_mutation_lossless : order_consistent g = true -> shape_ok sh = true -> early = false ->
+    (forall v d, In d (mdeps v) -> In d (v_rdeps (decl g v)) /\ In d (v_wdeps (decl g v))) ->
+    (forall v w x, In x (mdeps v) -> In x (mdeps w) -> v = w) ->
+    forall s0 : state D P,
+    (forall v d p, In d (mdeps v) -> d < nviews g -> rd d (own_data D P g s0 d) = Some p -> unmut v d (mut v d p) = p) ->
+    wr_len_ok D P rd wr g s0 -> fresh D P s0 -> codec_ok D P rd wr g s0 -> forall accs,
+    let r := save_m D P empty rd wr g sh mdeps mut unmut early (run_m D P empty rd g sh mdeps mut early accs s0) in
+    (fst r = true -> fresh D P (snd r) /\ same_content D P rd g (snd r) s0) /\
+    (writers_can_look D P rd g s0 -> fst r = true).
+  Proof. exact (mut_save_lossless D P empty rd wr g sh mdeps mut unmut early). Qed.
+End C10Mut.
+
+(** Non-vacuity: on the example graph (view 0 = bmodels looks at and mutates view 1 = ents) the hypotheses hold and the
+    history "look at bmodels, look at ents, save" is lossless although the user saw the entities without the key. *)
+Theorem c10_hidden_mutation_hypotheses_satisfiable :
+  order_consistent g_mut = true /\
+  (forall v d, In d (mx_mdeps v) -> In d (v_rdeps (decl g_mut v)) /\ In d (v_wdeps (decl g_mut v))) /\
+  (forall v w x, In x (mx_mdeps v) -> In x (mx_mdeps w) -> v = w) /\
+  (forall v d p, In d (mx_mdeps v) -> d < nviews g_mut -> mx_rd false d (own_data (list nat) (list nat) g_mut mx_file d) = Some p ->
+     mx_unmut v d (mx_mut v d p) = p) /\
+  cache (run_m (list nat) (list nat) nil (mx_rd false) g_mut std_shape mx_mdeps mx_mut false (0 :: 1 :: nil) mx_file) 1 = Some (7 :: nil) /\
+  fst (save_m (list nat) (list nat) nil (mx_rd false) mx_wr g_mut std_shape mx_mdeps mx_mut mx_unmut false
+         (run_m (list nat) (list nat) nil (mx_rd false) g_mut std_shape mx_mdeps mx_mut false (0 :: 1 :: nil) mx_file)) = true /\
+  raw (snd (save_m (list nat) (list nat) nil (mx_rd false) mx_wr g_mut std_shape mx_mdeps mx_mut mx_unmut false
+         (run_m (list nat) (list nat) nil (mx_rd false) g_mut std_shape mx_mdeps mx_mut false (0 :: 1 :: nil) mx_file))) 1 = 9 :: 7 :: nil /\
+  raw (snd (save_m (list nat) (list nat) nil (mx_rd false) mx_wr g_mut std_shape mx_mdeps mx_mut mx_unmut false
+         (run_m (list nat) (list nat) nil (mx_rd false) g_mut std_shape mx_mdeps mx_mut false (0 :: 1 :: nil) mx_file))) 0 = 5 :: nil.
+Proof. exact mut_example_lossless. Qed.
+
+(** [early = false] is necessary (the defect repaired by fix 61823d3): the reader of view 0 raises on this file AFTER
+    it changed the entities; the look fails, nothing is cached for view 0, its writer never runs, and save writes the
+    entity lump without the key ([7] instead of [9; 7]).  With [early = false] the same history is lossless. *)
+Theorem c10_hidden_mutation_before_raise_refuted :
+  fst (get_m (list nat) (list nat) nil (mx_rd true) g_mut std_shape mx_mdeps mx_mut true 0 mx_file) = false /\
+  cache (run_m (list nat) (list nat) nil (mx_rd true) g_mut std_shape mx_mdeps mx_mut true (0 :: nil) mx_file) 0 = None /\
+  cache (run_m (list nat) (list nat) nil (mx_rd true) g_mut std_shape mx_mdeps mx_mut true (0 :: nil) mx_file) 1 = Some (7 :: nil) /\
+  fst (save_m (list nat) (list nat) nil (mx_rd true) mx_wr g_mut std_shape mx_mdeps mx_mut mx_unmut true
+         (run_m (list nat) (list nat) nil (mx_rd true) g_mut std_shape mx_mdeps mx_mut true (0 :: nil) mx_file)) = true /\
+  raw (snd (save_m (list nat) (list nat) nil (mx_rd true) mx_wr g_mut std_shape mx_mdeps mx_mut mx_unmut true
+         (run_m (list nat) (list nat) nil (mx_rd true) g_mut std_shape mx_mdeps mx_mut true (0 :: nil) mx_file))) 1 = 7 :: nil /\
+  raw (snd (save_m (list nat) (list nat) nil (mx_rd true) mx_wr g_mut std_shape mx_mdeps mx_mut mx_unmut false
+         (run_m (list nat) (list nat) nil (mx_rd true) g_mut std_shape mx_mdeps mx_mut false (0 :: nil) mx_file))) 1 = 9 :: 7 :: nil.
+Proof. exact mut_before_raise_refuted. Qed.
+
+(** The undo is necessary: a writer that leaves its reader's change in place loses the key. *)
+Theorem c10_hidden_mutation_not_undone_refuted :
+  raw (snd (save_m (list nat) (list nat) nil (mx_rd false) mx_wr g_mut std_shape mx_mdeps mx_mut (fun _ _ p => p) false
+         (run_m (list nat) (list nat) nil (mx_rd false) g_mut std_shape mx_mdeps mx_mut false (0 :: nil) mx_file))) 1 = 7 :: nil.
+Proof. exact mut_not_undone_refuted. Qed.
 
 (** ---------------------------------------------------------------------------------------------------------
     The file container (Fmt/BspContainer.v): header, lump table in either field order, map revision, payload
